@@ -244,6 +244,17 @@ def execute(sim, scn):
     sim.run()
 
     wire = sim.net.wire
+
+    def gave_up_towards(addr):
+        by_mid = {}
+        for e in wire:
+            if e["src"] == srv and e["dst"] == addr and e["msg"] is not None and e["msg"]["type"] == rc.CON:
+                by_mid.setdefault(e["msg"]["mid"], []).append(e)
+        for mid, txs in by_mid.items():
+            if len(txs) >= 5 and not any(d[2] for e in txs for d in e["deliveries"]):
+                return True
+        return False
+
     for e in wire:
         if e["src"] == srv and SECRET.encode() in e["data"]:
             sim.violation("C09/exception-text-leaked", {"t": e["t"], "datagram": e["data"].hex()[:200]})
@@ -258,6 +269,11 @@ def execute(sim, scn):
         for e in resp:
             if e["data"] not in [d["data"] for d in distinct]:
                 distinct.append(e)
+        if not distinct and gave_up_towards(cl_addr):
+            # all five copies of an earlier confirmable response to this client were lost: the message layer reports a
+            # transport failure for the endpoint and drops what was held back for it (NSTART).  Narrow relaxation.
+            sim.anomaly("response-dropped-after-give-up-towards-client", q["kind"])
+            continue
         if len(distinct) != 1:
             sim.violation("C09/no-final-response" if not distinct else "C09/more-than-one-final-response",
                           dict(ident, n=len(distinct), responses=[rc.summary(e["msg"]) for e in distinct][:4]))
